@@ -22,7 +22,9 @@ inductive Cls where
   | SyntaxError | MemoryError | RecursionError | CsvError | UnicodeDecodeError
   | IndexNotSupported | IndexNotLoaded | FileNotFoundError | IsADirectoryError | NotADirectoryError
   | OSError | ModuleNotFoundError | Exception
-  | DatabaseError | OperationalError | Panic | SourmashError | JSONDecodeError | Other
+  | DatabaseError | OperationalError | Panic | SourmashError | JSONDecodeError
+  | EOFError | ZlibError | BadGzipFile
+  | Io | Internal | Msg | Unknown | Utf8Error | SerdeError | StorageError | Other
 deriving Repr, DecidableEq, Inhabited
 
 def Cls.name : Cls → String
@@ -35,14 +37,18 @@ def Cls.name : Cls → String
   | .NotADirectoryError => "NotADirectoryError" | .OSError => "OSError"
   | .ModuleNotFoundError => "ModuleNotFoundError" | .Exception => "Exception"
   | .DatabaseError => "DatabaseError" | .OperationalError => "OperationalError" | .Panic => "Panic"
-  | .SourmashError => "SourmashError" | .JSONDecodeError => "JSONDecodeError" | .Other => "Other"
+  | .SourmashError => "SourmashError" | .JSONDecodeError => "JSONDecodeError"
+  | .EOFError => "EOFError" | .ZlibError => "error" | .BadGzipFile => "BadGzipFile"
+  | .Io => "Io" | .Internal => "Internal" | .Msg => "Msg" | .Unknown => "Unknown" | .Utf8Error => "Utf8Error"
+  | .SerdeError => "SerdeError" | .StorageError => "StorageError" | .Other => "Other"
 
 def Cls.all : List Cls :=
   [.ValueError, .TypeError, .KeyError, .AttributeError, .IndexError, .OverflowError, .AssertionError,
    .SyntaxError, .MemoryError, .RecursionError, .CsvError, .UnicodeDecodeError, .IndexNotSupported,
    .IndexNotLoaded, .FileNotFoundError, .IsADirectoryError, .NotADirectoryError, .OSError,
    .ModuleNotFoundError, .Exception, .DatabaseError, .OperationalError, .Panic, .SourmashError,
-   .JSONDecodeError, .Other]
+   .JSONDecodeError, .EOFError, .ZlibError, .BadGzipFile, .Io, .Internal, .Msg, .Unknown, .Utf8Error,
+   .SerdeError, .StorageError, .Other]
 
 def Cls.ofName (s : String) : Option Cls := Cls.all.find? (fun c => c.name == s)
 
